@@ -661,10 +661,14 @@ def run(ctx):
         st = dict(st, via_helper={'states': st3['states'], 'transitions': st3['transitions'], 'completed_depth': st3['completed_depth']})
         st = dict(st, states=st['states'] + st2['states'], transitions=st['transitions'] + st2['transitions'], two_names={'states': st2['states'], 'transitions': st2['transitions'], 'completed_depth': st2['completed_depth']})
     else:
-        st = explore.bfs(ctx, FACTORY, {'small': False}, max_depth=depth, ops_chunk=6)
-        st3 = explore.bfs(ctx, FACTORY, {'small': False, 'helper': True}, max_depth=4, ops_chunk=6)
+        # each part gets its share of the budget (the first one alone can use up forty minutes)
+        with ctx.sub_budget(0.5):
+            st = explore.bfs(ctx, FACTORY, {'small': False}, max_depth=depth, ops_chunk=6)
+        with ctx.sub_budget(0.45):
+            st3 = explore.bfs(ctx, FACTORY, {'small': False, 'helper': True}, max_depth=4, ops_chunk=6)
         st = dict(st, states=st['states'] + st3['states'], transitions=st['transitions'] + st3['transitions'], via_helper={'states': st3['states'], 'transitions': st3['transitions'], 'completed_depth': st3['completed_depth']})
-        st4 = explore.bfs(ctx, FACTORY, {'small': False, 'systemd': True}, max_depth=4, ops_chunk=6)
+        with ctx.sub_budget(0.8):
+            st4 = explore.bfs(ctx, FACTORY, {'small': False, 'systemd': True}, max_depth=4, ops_chunk=6)
         st = dict(st, states=st['states'] + st4['states'], transitions=st['transitions'] + st4['transitions'], via_systemd={'states': st4['states'], 'transitions': st4['transitions'], 'completed_depth': st4['completed_depth']})
     cases = helper_cases()
     workdir = os.path.join(vbox.RUN_ROOT, 'helper')
